@@ -127,6 +127,14 @@ const char *hx_sym(uintptr_t pc) {
 	return best >= 0 ? syms[best].name : "?";
 }
 static int san_seen; static char *emitted_cls[64]; static int n_emitted;
+static const char *fatal_what = "";
+static void fatal_cb(const san_event_t *e) {
+	const char *fn = "?"; char stack[500]; size_t so = 0; stack[0] = 0;
+	for (int i = 0; i < e->npcs; i++) { const char *s = hx_sym(e->pcs[i] - (i ? 1 : 0)); if (so + 60 < sizeof stack) so += (size_t) snprintf(stack + so, sizeof stack - so, "%s ", s); if (!strcmp(fn, "?") && !strncmp(s, "bidib_", 6)) fn = s; }
+	char line[900]; snprintf(line, sizeof line, "V sanitizer kind=%s %s fn=%s\t%s; stack: %s\n", e->kind, e->is_write ? "write" : "read", fn, fatal_what, stack);
+	res_emit_now(line);
+}
+void hx_set_context(const char *what) { fatal_what = what; san_fatal_cb = fatal_cb; }
 int hx_san_last_was_write;
 int hx_emit_san_events(const char *what) {
 	int n = 0; hx_san_last_was_write = 0;
@@ -140,7 +148,7 @@ int hx_emit_san_events(const char *what) {
 			if (so + 60 < sizeof stack) so += (size_t) snprintf(stack + so, sizeof stack - so, "%s ", s);
 			if (!strcmp(fn, "?") && !strncmp(s, "bidib_", 6)) fn = s;
 		}
-		if (e->is_write) hx_san_last_was_write = 1;
+		if (e->is_write || strstr(e->kind, "free")) hx_san_last_was_write = 1;
 		char cls[200]; snprintf(cls, sizeof cls, "sanitizer kind=%s %s fn=%s", e->kind, e->is_write ? "write" : "read", fn);
 		n++;
 		int dup = 0; for (int k = 0; k < n_emitted; k++) if (!strcmp(emitted_cls[k], cls)) dup = 1;
@@ -177,12 +185,12 @@ int hx_leak_check(const char *what) {
 			if (so + 50 < sizeof stack) so += (size_t) snprintf(stack + so, sizeof stack - so, "%s ", sname);
 			if (!strcmp(fn, "?") && !strncmp(sname, "bidib_", 6)) fn = sname; }
 		int indirect = (p - rep >= 8 && !strncmp(p - 8, "Indirect", 8));
-		if (!indirect) { char cls[160]; snprintf(cls, sizeof cls, "leak allocated-in=%s", fn); res_violation(cls, "%s: %ld bytes leaked; allocation stack: %s", what, bytes, stack); reported++; }
+		if (!indirect && strcmp(fn, "?")) { char cls[160]; snprintf(cls, sizeof cls, "leak allocated-in=%s", fn); res_violation(cls, "%s: %ld bytes leaked; allocation stack: %s", what, bytes, stack); reported++; }
+		else if (!indirect) res_printf("C leaks_outside_library_ignored 1\n");     /* allocated by the harness itself */
 		p = end == rep + n ? end : end;
 		if (p >= rep + n) break;
 	}
-	if (!reported) res_violation("leak allocated-in=?", "%s: LeakSanitizer reported leaks: %.300s", what, rep);
-	return 1;
+	return reported > 0;
 }
 #else
 int hx_leak_check(const char *what) { (void) what; return 0; }
